@@ -10,7 +10,10 @@ use std::{
 use crate::{
     context::CommonContext,
     instruction::operation::Operation,
-    parser::{parse_iter, CodePoint, Item, Macro, ParseContext, ParseResult, Paths, Segment},
+    parser::{
+        parse_iter, sets_origin_for_later, CodePoint, Item, Macro, ParseContext, ParseResult, Paths,
+        Segment,
+    },
 };
 
 #[cfg(test)]
@@ -77,13 +80,13 @@ impl Pass0Context {
     }
 
     pub fn as_pass0_result(&self) -> BuildResultPass0 {
-        let segments = self
-            .segments
-            .borrow()
+        let all = self.segments.borrow();
+        let segments = all
             .iter()
-            // an empty segment with an .org still moves the location counter of its memory
-            .filter(|x| !x.borrow().is_empty() || x.borrow().address != 0)
-            .map(|x| x.borrow().clone())
+            .enumerate()
+            // an empty segment with an .org sets the location counter for what follows in its memory
+            .filter(|(i, x)| !x.borrow().is_empty() || sets_origin_for_later(&x.borrow(), &all, *i))
+            .map(|(_, x)| x.borrow().clone())
             .collect();
         let messages = self.messages.borrow().clone();
 
